@@ -60,7 +60,7 @@ fn main() {
     let replay = args.get("replay").map(|p| serde_json::from_str::<serde_json::Value>(&std::fs::read_to_string(p).unwrap()).unwrap());
     let sizes: Vec<usize> = match &replay {
         Some(r) => vec![r["size"].as_u64().unwrap() as usize],
-        None => (0..=max_size).collect(),
+        None => (args.usize("min_size", 0)..=max_size).collect(),
     };
     'sizes: for size in sizes {
         if t0.elapsed().as_secs() >= budget_s {
